@@ -218,7 +218,16 @@ def judge(rec, opts):
     data = {}
     for l in reversed(layers):
         data.update(l)
-    env = replay.make_env(rec["cfg"], loader=DictLoader(dict(templates)))
+    class Suspending(DictLoader):
+        """Every asynchronous read gives the event loop a turn, as a loader that reads files or a network does."""
+
+        async def get_source_async(self, env, template_name, *, context=None, **kwargs):
+            await asyncio.sleep(0)
+            src = self.get_source(env, template_name, context=context, **kwargs)
+            await asyncio.sleep(0)
+            return src
+
+    env = replay.make_env(rec["cfg"], loader=Suspending(dict(templates)))
     spy_filters(env)
     try:
         t = env.from_string(templates[main], name=main, overlay_data=RecMap(data))
@@ -239,6 +248,21 @@ def judge(rec, opts):
     except Exception as e:  # noqa: BLE001
         out.append((f"analyze-async-raised-{type(e).__name__}:{where}", {"templates": templates}))
     out += [(f"{sig}:{where}", dict(det, templates=templates)) for sig, det in span_faults(a, templates)[:2]]
+    # what a partial reports when analysed on its own (its own text only) is reported for it, at the same place, by the
+    # analysis of a template that loads it - whatever other templates say at the same offsets
+    if not out:
+        loaded = {sp.template_name for spans in a.tags.values() for sp in spans} | {v.span.template_name for vs in a.variables.values() for v in vs}
+        for pname in sorted(n for n in loaded if n in templates and n != main):
+            try:
+                ap = env.from_string(templates[pname], name=pname).analyze(include_partials=False)
+            except Exception:  # noqa: BLE001
+                continue
+            have = {(str(v), v.span.template_name, v.span.start, v.span.end) for vs in a.variables.values() for v in vs}
+            lost = sorted((str(v), v.span.start, v.span.end) for vs in ap.variables.values() for v in vs
+                          if (str(v), pname, v.span.start, v.span.end) not in have)
+            if lost:
+                out.append((f"partial-variable-location-not-reported:{where}", {"templates": templates, "partial": pname, "lost": lost[:5]}))
+                break
     # the same root loaded by the loader under a name in a directory, whose last part is the name of a partial it uses:
     # what is reported (names) is what is reported for the root parsed from a string, and every span names the template
     # whose source it lies in
